@@ -328,9 +328,9 @@ def one_pack(rep, root, cfg, idx):
             return None
     f0 = F.fs_term(root, U.prior_classifier)
     outside_before = {p: t for p, t in F.tree(root).items() if p != U.DS and not p.startswith(U.DS + '/')}
-    # default retry arguments wait up to two minutes between attempts: a broken tree would
-    # make a run last for hours, so every third run keeps the defaults and the others do not wait
-    o = U.run_pack(root, df, cuts, k, mode, comp, overwrite=ov, K=None if idx % 3 == 0 else 2)
+    # the default retry arguments wait up to two minutes between 24 attempts: on a broken
+    # tree one failing call would last half an hour, so the runs use 2 attempts and no waiting
+    o = U.run_pack(root, df, cuts, k, mode, comp, overwrite=ov, K=2)
     rep.evaluations += 1
     rep.count(f'mode:{mode}')
     rep.count(f'prior:{prior}')
